@@ -1570,9 +1570,11 @@ class CollocatedIntegratedOptimizationProblem(OptimizationProblem, metaclass=ABC
             # Store integrators for result extraction
             if self.integrate_states:
                 # Store integrators for result extraction
+                # The integration runs in physical units; the stored trajectories are
+                # scaled like the corresponding entries of the solver input.
                 self.__integrators.append(
                     {
-                        variable: integrators[i, :]
+                        variable: integrators[i, :] / self.variable_nominal(variable)
                         for i, variable in enumerate(integrated_variable_names)
                     }
                 )
@@ -2476,17 +2478,20 @@ class CollocatedIntegratedOptimizationProblem(OptimizationProblem, metaclass=ABC
             else:
                 times = self.times(canonical)
 
-                if self.integrate_states:
-                    nominal = 1
+                nominal = self.variable_nominal(canonical)
+                if self.integrate_states and canonical in self.__integrators[ensemble_member]:
                     if t == self.initial_time:
-                        sym = sign * X[inds]
+                        sym = X[inds]
+                        if not scaled and nominal != 1:
+                            sym = sym * nominal
+                        if sign < 0:
+                            sym = -sym
                         found = True
                     else:
                         variable_values = ca.horzcat(
-                            sign * X[inds], self.__integrators[ensemble_member][canonical]
+                            X[inds], self.__integrators[ensemble_member][canonical]
                         ).T
                 else:
-                    nominal = self.variable_nominal(canonical)
                     variable_values = X[inds]
 
                 if not found:
